@@ -23,6 +23,7 @@
 #define protected public
 #include "util/RefCount.h"
 #include "util/ObjectPool.h"
+#include "util/TimeUtilityFunctions.h"
 #undef private
 #undef protected
 #include "sched/sched.h"
@@ -711,6 +712,108 @@ static void run_stress(int k, const std::string & hdr, const std::string & body)
    fflush(stdout);
 }
 
+// ------------------------------------------------------------------ the last references dropped at the same instant (free-running, IN the verdict)
+// "R<threads>:<h|p>:<milliseconds>|"   <threads> real threads each hold ONE reference to the same object (h: a heap object whose
+// manager only counts how often the object is handed back; p: an object of a real ObjectPool) and drop it at the same instant, round
+// after round for the given time.  The decision rule uses definitive outcomes only -- it cannot raise a false alarm on correct code,
+// whatever the timing: the manager saw the object handed back a number of times other than exactly once; the pool is not back to
+// "nothing in use, bookkeeping consistent" at quiescence; or the process dies (sanitizer report, MASSERT of ReleaseObject).
+// This is where the premise "decrement-and-test is ONE atomic step" of the model meets the real std::atomic code: no hook
+// separates the two halves of a split decrement, so only real preemption can show it.
+struct CountingManager : public AbstractObjectManager
+{
+   std::atomic<int> _recycled;
+   CountingManager() : _recycled(0) {}
+   virtual void * ObtainObjectGeneric() {return NULL;}
+   virtual void RecycleObject(void *) {_recycled++;}   // deliberately does not free: the driver does, once every thread is done
+   virtual uint32 FlushCachedObjects() {return 0;}
+   virtual void Print(const OutputPrinter &) const {}
+};
+
+struct RaceShared
+{
+   std::atomic<long> go;      // round number the workers may start
+   std::atomic<long> done;    // total number of drops performed
+   std::atomic<bool> stop;
+   std::vector<ItemRef> refs;
+};
+
+static void race_worker(RaceShared * sh, int me)
+{
+   long round = 0;
+   for(;;)
+   {
+      round++;
+      int spins = 0;
+      while((sh->go.load(std::memory_order_acquire) < round)&&(!sh->stop.load(std::memory_order_relaxed))) {if (++spins > 2000) {std::this_thread::yield(); spins = 0;}}
+      if (sh->stop.load(std::memory_order_relaxed)) return;
+      sh->refs[me].Reset();          // the drop: the threads arrive here together
+      sh->done.fetch_add(1, std::memory_order_release);
+   }
+}
+
+static void run_race(int k, const std::string & hdr)
+{
+   std::vector<std::string> h = split(hdr.substr(1), ':');
+   const int T = atoi(h[0].c_str()); const bool pooled = (h.size() > 1)&&(h[1] == "p"); const int ms = (h.size() > 2) ? atoi(h[2].c_str()) : 1000;
+   std::string verdict;
+   g_mt = true;
+   long rounds = 0;
+   {
+      CountingManager mgr;
+      PoolI * pool = pooled ? make_pool(2, 1) : NULL;
+      RaceShared sh; sh.go = 0; sh.done = 0; sh.stop = false; sh.refs.resize(T);
+      std::vector<std::thread> ths;
+      for (int t=0; t<T; t++) ths.push_back(std::thread(race_worker, &sh, t));
+      const uint64 t0 = GetRunTime64();
+      while(verdict.empty() && ((int64)(GetRunTime64()-t0) < (int64)ms*1000))
+      {
+         for (int burst=0; burst<200 && verdict.empty(); burst++)
+         {
+            Item * obj = pooled ? pool->Obtain() : new Item;
+            if (!pooled) obj->SetManager(&mgr);
+            mgr._recycled = 0;
+            for (int t=0; t<T; t++) sh.refs[t].SetRef(obj);
+            rounds++;
+            sh.go.store(rounds, std::memory_order_release);
+            int spins = 0;
+            while(sh.done.load(std::memory_order_acquire) < rounds*T) {if (++spins > 2000) {std::this_thread::yield(); spins = 0;}}
+            // quiescence: every thread has dropped its reference
+            char buf[256];
+            if (pooled)
+            {
+               std::vector<SlabDump> slabs; std::string why; unsigned totfree = 0; int inuse = 0; bool cyc = false;
+               if (!pool->Slabs(slabs, why)) verdict = "pool bookkeeping inconsistent after the last references were dropped concurrently: " + why;
+               for (size_t s=0; s<slabs.size(); s++) {totfree += (unsigned) slabs[s].freel.size(); inuse += slabs[s].inuse; if (slabs[s].cyc) cyc = true;}
+               if (verdict.empty() && ((inuse != 0)||cyc||(totfree != pool->Cur())))
+               {
+                  sprintf(buf, "after %d threads dropped the last references to one pooled object: nodes in use %d (must be 0), free nodes %u vs _curPoolSize %u%s (round %ld)", T, inuse, totfree, pool->Cur(), cyc ? ", free-list cycle" : "", rounds);
+                  verdict = buf;
+               }
+            }
+            else
+            {
+               const int n = mgr._recycled.load();
+               if (n != 1)
+               {
+                  sprintf(buf, "%d threads each dropped their one reference to the same object and it was handed back to its manager %d times (must be exactly once) (round %ld)", T, n, rounds);
+                  verdict = buf;
+               }
+               obj->SetManager(NULL);
+               delete obj;
+            }
+         }
+      }
+      sh.stop = true;
+      for (int t=0; t<T; t++) ths[t].join();
+      if (pooled && verdict.empty()) delete pool;   // (leaked after a failure: its destructor would crash on the corrupted state)
+   }
+   g_mt = false;
+   if (verdict.empty()) printf("%d race ok\n", k);
+   else {printf("%d race bad\n", k); printf("%d ORACLE FAIL %s\n", k, verdict.c_str());}
+   fflush(stdout);
+}
+
 // ------------------------------------------------------------------ multi-threaded histories under the controlled scheduler
 // "S<N>:<max>:<S>:<t.t.t...>|setup/teardown/prog1/prog2/..."
 // The main thread runs <setup> on its own stack; every worker starts with a copy of that stack (made before it
@@ -847,6 +950,7 @@ int main()
          const std::string hdr = line.substr(0, p), body = line.substr(p+1);
          if ((!hdr.empty())&&(hdr[0] == 'M')) run_stress(k, hdr, body);
          else if ((!hdr.empty())&&(hdr[0] == 'S')) run_scheduled(k, hdr, body);
+         else if ((!hdr.empty())&&(hdr[0] == 'R')) run_race(k, hdr);
          else run_single(k, hdr, body);
       }
       k++;
